@@ -390,10 +390,10 @@ class C06(PropBase):
                 for c in itertools.product(d["toks"], repeat=n):
                     e = " ".join(c)
                     for hi, head in enumerate(d["heads"]):
-                        if hi > 0 and n == 2 and not rng.chance(1, 6 if tier == "quick" else 2):
+                        if hi > 0 and n == 2 and not rng.chance(1, 2 if tier == "quick" else 1):
                             continue
-                        tgt = d["targets"][rng.below(len(d["targets"]))] if n == 2 else None
-                        for t in ([tgt] if tgt else d["targets"]):
+                        tgts = [d["targets"][rng.below(len(d["targets"]))] for _k in range(2)] if n == 2 else d["targets"]
+                        for t in tgts:
                             valid = d["valids"][0] if rng.chance(2, 3) else rng.choice(d["valids"])
                             f = ["B", arch, d["ctx"], valid, str(SP), stack, "0", "4096", "%s %s %s" % (head, t, e)]
                             if rng.chance(1, 8):
